@@ -219,7 +219,7 @@ CHECKS = {
              "(attribute, value) is read back by _extract_attributes as a value that add_attributes stores as the original (c02_int, "
              "c02_bool, c02_uri, c02_float, c02_str incl. strings starting with 'prov:', c02_ref for prov:ref, c02_lang for xml:lang), "
              "under explicit readability hypotheses on the element's namespace map (StdMap). Tied to /repo by three channels per "
-             "document and force_types value: writer infoset, reader on the same infoset, strict end-to-end comparison. Record level (Props/C02S): sorted_attributes is a permutation for every record kind (c02_sortedAttributes_perm), _derive_record_label consumes exactly one pair by position (c02_deriveLabel_exact), so the children of a record element are one per remaining pair (c02_children_perm).",
+             "document and force_types value: writer infoset, reader on the same infoset, strict end-to-end comparison. Record level (Props/C02S): sorted_attributes is a permutation for every record kind (c02_sortedAttributes_perm), _derive_record_label consumes exactly one pair by position (c02_deriveLabel_exact), so the children of a record element are one per remaining pair (c02_children_perm). Record level (Props/C02R): c02_value_any / c02_child_argFor (every storable value of every attribute class, read from its child element, is an add_attributes argument standing for the pair) and c02_record (for a stored record the children, after _derive_record_label and sorting, are accepted by _extract_attributes and rebuild in any manager state exactly those pairs; both force_types), c02_label_restores (element name -> kind and the consumed prov:type).",
         note=A_COMMON + " A-XMLTEXT (lxml round-trips the infoset) and A-LEX assumed; lexical facts such as 'a decimal numeral does not "
              "start with prov:' are hypotheses of the theorems. Which of several PROV subtype values names the element follows Python's "
              "set order: compared modulo that choice. Known finding C02-1 = C03-1/C01-1 (bundle re-binds a prefix).",
